@@ -227,10 +227,23 @@ def run_engine(spec: Spec, beh: Behaviour, cfg: Optional[Cfg] = None, chart: Any
     exc: Optional[BaseException] = None
     result = None
     cancel_state: Dict[str, Any] = {"task": None, "cancelled_at": None}
-    if cfg.cancel_at is None:
-        kind, payload = loop.run_to_verdict(main())
-    else:
-        kind, payload = _run_with_cancel(loop, main, cfg.cancel_at, cancel_state)
+    import time as _time
+
+    real_sleep = _time.sleep
+
+    def _blocking_sleep(secs: Any = 0) -> None:
+        # generated node bodies never call time.sleep: a call reaching this stub comes from engine code and would
+        # block the event loop (every other in-flight node) for `secs` seconds
+        rc.blocking.append("time.sleep")
+
+    _time.sleep = _blocking_sleep
+    try:
+        if cfg.cancel_at is None:
+            kind, payload = loop.run_to_verdict(main())
+        else:
+            kind, payload = _run_with_cancel(loop, main, cfg.cancel_at, cancel_state)
+    finally:
+        _time.sleep = real_sleep
     if kind == "done":
         result = payload
     elif kind in ("raised", "cancelled"):
